@@ -1057,13 +1057,20 @@ def concretize(x, limit=None):
             return v
 
 
+MANY_IF_UNKNOWN = [False]
+
+
 def _many_values(nodes, k=4):
     """True when the current path admits more than k joint values of the nodes (at most k+1 queries, no decision recorded);
     values pinned by the path condition are then still concretised as before"""
     c = CTX
     excl = []
     for _ in range(k + 1):
-        if c.query(excl) != "sat":
+        r = c.query(excl)
+        if r == "unknown" and excl and MANY_IF_UNKNOWN[0]:
+            # opt-in (harness): the solver found some values and gave up on "yet another one" -- not pinned, so not enumerable either
+            return True
+        if r != "sat":
             return False
         m = c.model
         same = [c.lower(b_cmp("eq", n, const(model_int(m, n, c.mode)))) for n in nodes]
